@@ -7,3 +7,10 @@ import MJ.Props.C18
 #print axioms MJ.C18.expression_code_binds_nothing
 #print axioms MJ.C18.builtins_do_not_read_context
 #print axioms MJ.C18.analysis_no_panic
+#print axioms MJ.C18.reads_subset_undeclared_calls
+#print axioms MJ.C18.macro_call_site_independent
+#print axioms MJ.C18.context_asked_iff_no_frame_resolves
+#print axioms MJ.C18.closure_and_lookup_order_as_modelled
+#print axioms MJ.C18.multi_file_sound
+#print axioms MJ.C18.analysis_arms_as_modelled
+#print axioms MJ.C18.walkers_interpret_arms
